@@ -402,3 +402,19 @@ func GenProgram(d *Draw, opts ProgOpts) *Program {
 	sort.Strings(tags)
 	return &Program{Defs: defs, Vars: pg.vars, Desc: strings.TrimSpace(pg.desc.String()), Tags: tags, Wrapped: pg.wrapped}
 }
+
+// GenBody draws a block-structured body into graph g (which shares defs, so ids are unique across the
+// processes of one definitions element): start -> blocks -> end. It returns the initial variables.
+func GenBody(d *Draw, defs *Definitions, g *Graph, opts ProgOpts, prefix string) (map[string]any, string) {
+	pg := &progGen{d: d, defs: defs, opts: opts, vars: map[string]any{}, tags: map[string]bool{}}
+	st := g.addNode(&Node{ID: prefix + "_Start", Kind: "start"})
+	n := 1 + d.N(2)
+	cur := st.ID
+	for i := 0; i < n; i++ {
+		cur, _ = pg.block(g, cur, nil, -1, 0)
+	}
+	e := g.addNode(&Node{ID: prefix + "_End", Kind: "end"})
+	g.connect(defs, cur, e.ID, nil, -1)
+	g.index()
+	return pg.vars, strings.TrimSpace(pg.desc.String())
+}
